@@ -33,15 +33,21 @@ Four exhaustive enumerations against the real spec factories / providers / seria
                    absolute targets (a relative link / no link as controls).
   M  mangle        mangle_command over every token string: result is a single path component.
 
-Weaker readings taken on purpose (soundness):
-  * "content" = what a provider object serves.  listdir/listglob return names, not content: a listing of
-    a directory outside the root is counted (counter `listing_outside_root`) but is not a violation; the
-    two listing factories are exercised as feeders of foreach_collect, whose providers are checked.
-  * a deny entry "matches" by the documented rule only (path: string equality with the spec path as
-    the provider sees it; command: equal, or the entry followed by a space).  A denied file reached
-    through an alias (`/d/../f`, a symlink) is counted (`denied_file_reached_via_alias`), not reported.
-  * only created *files* outside the output directory are violations; directories are counted.
-  * refusing a path inside the root is never a violation.
+Readings (re-read against the statement after the seeded rounds; leniency kept only where the statement is silent):
+  * listdir/listglob: the entries of a directory are that directory's content - a listing taken outside the root IS
+    reported (clause containment:listing-served-from-outside-root, features listing_factory); the two factories are
+    also exercised as feeders of foreach_collect, whose providers are checked.
+  * deny list: a command "matches" by the documented rule (equal, or the entry followed by a space).  A FILE matches
+    when the spec path equals the entry up to lexical noise (`//`, `/./`, `dir/..`: os.path.normpath) - the statement
+    speaks of the file, and such a spelling names the same path (clause deny:denied-file-served-under-other-spelling).
+    Kept lenient: another NAME linked to the denied file (symlink alias) is only counted - the statement does not say
+    that denying a path denies every link to it; the code's extra "entry followed by a blank" rule for files is outside
+    the alphabet (no file name with a blank) because the statement neither demands nor forbids it.
+  * persistence: files AND directories created outside the output directory, existing entries outside modified, and
+    persisted entries resolving outside are all violations ("writes only to the archive").
+  * refusing a path inside the root is never a violation (the statement only forbids serving outside content).
+  * iteration orders that reach a verdict are owned (deny tables: forced hashes, all orders).  glob / os.listdir /
+    scandir orders only permute lists the oracle compares as sets, so they cannot change a verdict.
 """
 import glob as _glob
 import itertools
@@ -103,12 +109,12 @@ TARGETS = {
 TNAMES = list(TARGETS)
 
 BOUNDS = {
-    "quick": {"A_path_segments_full": 3, "A_path_segments_existing_only": 4, "A_layouts": "none + 22 single links (each with and without trailing slash on the root) + 20 two-link chains",
-              "B_entries": "every prefix of every produced item, item+' x', item+'x'", "B_simultaneous_entries": "prefix-related pairs (denying x non-denying prefix of one item), both table orders",
-              "C_file_path_segments": 5, "C_layouts": 3, "C2_path_segments": 2, "C2_layouts": 4, "C_cmd_tokens": 3, "C_label_segments": 5, "M_tokens": 5},
-    "thorough": {"A_path_segments_full": 4, "A_path_segments_existing_only": 5, "A_layouts": "none + 22 single links (each with and without trailing slash on the root) + all 121 two-link pairs",
-                 "B_entries": "every prefix of every produced item, item+' x', item+'x'", "B_simultaneous_entries": "all pairs", "B_table_orders": "both iteration orders of every pair (forced hashes)",
-                 "C_file_path_segments": 5, "C_layouts": 8, "C2_path_segments": 3, "C2_layouts": 8, "C_cmd_tokens": 4, "C_label_segments": 5, "M_tokens": 6},
+    "quick": {"A_path_segments_full": 3, "A_path_segments_existing_only": 4, "A_layouts": "none + 22 single links + 20 two-link chains; root forms: plain (all), trailing slash (none + 11 links at root/l), symlinked root (none + 5 links at root/l)", "A_extra_paths": "10 degenerate spellings ('', ., /, //f, ./f, d/./f, d//f, f/, f/., d/) + metachar patterns (one segment of ?, [dfl], root?, r*, *[!x], [s]ecret) that match",
+              "B_entries": "every prefix of every produced item, item+' x', item+'x'", "B_simultaneous_entries": "unfiltered units: prefix-related pairs (denying x non-denying prefix of one item) in both table orders, prefix chains of 3 (a<d<b) in all 6 orders", "B_other": "B2 real specs, B3 component names, B4 aliases x 4 factories, B5 mixed files/commands/components configurations (200), B6 evaluate-extend-evaluate histories",
+              "C_file_path_segments": 5, "C_layouts": 3, "C2_path_segments": 2, "C2_layouts": 4, "C_save_as": "none, '', /, x, dir/, absolute", "C_container_ids": "c1, .., ../.., a/b, absolute", "C_cmd_tokens": 3, "C_label_segments": 5, "M_tokens": 5},
+    "thorough": {"A_path_segments_full": 4, "A_path_segments_existing_only": 5, "A_layouts": "none + 22 single links + all 121 two-link pairs; root forms: plain (all), trailing slash (none + 22 single links), symlinked root (none + 11 links at root/l), symlink+slash (none)", "A_extra_paths": "10 degenerate spellings + metachar patterns that match",
+                 "B_entries": "every prefix of every produced item, item+' x', item+'x'", "B_simultaneous_entries": "all pairs in both orders; prefix chains of 3 (every shorter non-denying prefix x denying x 2 extensions) in all 6 orders", "B_other": "as quick",
+                 "C_file_path_segments": 5, "C_layouts": 8, "C2_path_segments": 3, "C2_layouts": 8, "C_save_as": "none, '', /, x, dir/, absolute", "C_container_ids": "c1, .., ../.., a/b, absolute", "C_cmd_tokens": 4, "C_label_segments": 5, "M_tokens": 6},
 }
 CAP_S = {"quick": 600, "thorough": 3000}      # wall-clock guards only; the machine is shared, cost is tracked in CPU seconds
 
@@ -1158,7 +1164,7 @@ def run_B(unit, tier, res):
     if sub == "B1":
         ents = b_entries(unit["variant"])
         sets = [([], [])] + [([e], [0]) for e in ents]
-        if BOUNDS[tier]["B_simultaneous_entries"] == "all pairs":
+        if BOUNDS[tier]["B_simultaneous_entries"].startswith("all pairs"):
             pairs = [list(c) for c in itertools.combinations(ents, 2)]
         else:
             pairs = b_prefix_pairs(unit["variant"])
